@@ -32,6 +32,7 @@ func runSeq(prop string, c SeqCase) (*gcs.Runner, *vt.Failure) {
 	}
 	defer e.Close()
 	r := gcs.NewRunner(e)
+	r.FileNames = true
 	for i := range c.Steps {
 		op := &c.Steps[i]
 		if mis := r.Do(op); mis != "" {
